@@ -53,50 +53,17 @@ type clientHandler struct {
 // clientHandlers extracts rpcClient.Handle(<const>, handler) registrations of package client.
 func clientHandlers(p *Program) map[string]*clientHandler {
 	pk := p.Pkgs["client"]
-	info := pk.TypesInfo
+	_ = pk
 	out := map[string]*clientHandler{}
-	for _, f := range pk.Syntax {
-		ast.Inspect(f, func(n ast.Node) bool {
-			call, ok := n.(*ast.CallExpr)
-			if !ok || len(call.Args) != 2 {
-				return true
-			}
-			sel, ok := call.Fun.(*ast.SelectorExpr)
-			if !ok || sel.Sel.Name != "Handle" {
-				return true
-			}
-			if tv, ok := info.Types[sel.X]; !ok || !isRPC2(tv.Type, "Client") {
-				return true
-			}
-			name, ok := constString(info, call.Args[0])
-			if !ok {
-				return true
-			}
-			h := &clientHandler{method: name, pos: call.Pos(), decodes: map[int]string{}, maxArity: -1}
-			// resolve the handler body: func literal delegating to a method, or a method value
-			var target *types.Func
-			switch a := ast.Unparen(call.Args[1]).(type) {
-			case *ast.FuncLit:
-				ast.Inspect(a.Body, func(m ast.Node) bool {
-					if c, ok := m.(*ast.CallExpr); ok {
-						if fn := calleeOf(info, c); fn != nil && fn.Pkg() == pk.Types {
-							target = fn
-						}
-					}
-					return true
-				})
-			case *ast.SelectorExpr:
-				target, _ = info.Uses[a.Sel].(*types.Func)
-			}
-			if target != nil {
-				h.fn, h.pk = p.Decl(target)
-			}
-			if h.fn != nil {
-				analyseHandler(h)
-			}
-			out[name] = h
-			return true
-		})
+	for _, reg := range rpcRegistrations(p, "client", "Client") {
+		h := &clientHandler{method: reg.name, pos: reg.pos, decodes: map[int]string{}, maxArity: -1}
+		if reg.target != nil {
+			h.fn, h.pk = p.Decl(reg.target)
+		}
+		if h.fn != nil {
+			analyseHandler(h)
+		}
+		out[reg.name] = h
 	}
 	return out
 }
@@ -233,7 +200,6 @@ func serverSends(p *Program) map[*types.Func]*serverSend {
 func ruleW(p *Program, r *Reporter) {
 	const id = "W1"
 	spk := p.Pkgs["server"]
-	sinfo := spk.TypesInfo
 	handlers := clientHandlers(p)
 	sends := serverSendsSSA(p)
 	if len(handlers) < 3 || len(sends) < 3 {
@@ -242,30 +208,10 @@ func ruleW(p *Program, r *Reporter) {
 	}
 	// server RPC registrations: srv.Handle("<rpc>", o.Method)
 	rpcHandler := map[string]*types.Func{}
-	for _, f := range spk.Syntax {
-		ast.Inspect(f, func(n ast.Node) bool {
-			call, ok := n.(*ast.CallExpr)
-			if !ok || len(call.Args) != 2 {
-				return true
-			}
-			sel, ok := call.Fun.(*ast.SelectorExpr)
-			if !ok || sel.Sel.Name != "Handle" {
-				return true
-			}
-			if tv, ok := sinfo.Types[sel.X]; !ok || !isRPC2(tv.Type, "Server") {
-				return true
-			}
-			name, ok := constString(sinfo, call.Args[0])
-			if !ok {
-				return true
-			}
-			if ms, ok := ast.Unparen(call.Args[1]).(*ast.SelectorExpr); ok {
-				if fn, ok := sinfo.Uses[ms.Sel].(*types.Func); ok {
-					rpcHandler[name] = fn
-				}
-			}
-			return true
-		})
+	for _, reg := range rpcRegistrations(p, "server", "Server") {
+		if reg.target != nil {
+			rpcHandler[reg.name] = reg.target
+		}
 	}
 	// constructors: functions of package server returning *monitor, with the kind constant of their literal
 	kindType := p.LookupType("server", "monitorKind")
